@@ -71,3 +71,17 @@ package writer
 //@   assume_requires GetField
 //@   assume_requires writeHash128
 //@   at call Delete: assert card <= 1
+//@   ghost_set verif_ghost.kSecDel = verif_ghost.kSecDel + 1
+
+// the index key of a keyless row ends in the hash of the WHOLE row, so every update of a row changes its index key,
+// whether or not an indexed column changed: a normal return of Update has removed the old row's entry (one Delete)
+// and added the new row's entry (one Insert). The two counters are event markers on the secondary writer's own
+// Delete / Insert (Insert is otherwise not under contract).
+//@ func (prollyKeylessSecondaryWriter).Insert
+//@   property C27
+//@   trusted ghost marker only (the body builds the index key and calls Put on the mutable map)
+//@   modifies nothing
+//@   ghost_set verif_ghost.kSecIns = verif_ghost.kSecIns + 1
+//@ func (prollyKeylessSecondaryWriter).Update
+//@   property C27
+//@   ensures err == nil ==> verif_ghost.kSecDel == verif_old(verif_ghost.kSecDel) + 1 && verif_ghost.kSecIns == verif_old(verif_ghost.kSecIns) + 1
